@@ -273,10 +273,84 @@ func runC01(ctx *Ctx) *Result {
 			}
 		}
 	}
+	// controller half, histories: the annotation and replicas are edited after the controller has
+	// recorded a revision under the old values; the pods must follow the *current* (r, S)
+	if w != nil || ctx.mine(c01Blocks) {
+		if w == nil {
+			srv = simapi.New()
+			w = world.New(srv)
+		}
+		type hist struct {
+			r1 int
+			s1 []int32
+			r2 int
+			s2 []int32
+		}
+		var hs []hist
+		sl := [][]int32{nil, {0}, {1}, {1, 3}, {0, 2}, {2, 5}, {4}}
+		for _, a := range sl {
+			for _, b := range sl {
+				for _, r1 := range []int{2, 3} {
+					for _, r2 := range []int{1, 3, 4} {
+						hs = append(hs, hist{r1, a, r2, b})
+					}
+				}
+			}
+		}
+		for hi, h := range hs {
+			if !ctx.mine(c01Blocks + hi%(ctx.N-c01Blocks)) {
+				continue
+			}
+			for _, pol := range []asv1.PodManagementPolicyType{asv1.ParallelPodManagement, asv1.OrderedReadyPodManagement} {
+				res.Evaluations++
+				res.Stats["controller_history_cases"]++
+				got, incon := c01History(w, h.r1, h.s1, h.r2, h.s2, pol)
+				if incon != "" {
+					res.Inconclusive = append(res.Inconclusive, incon)
+					continue
+				}
+				m := map[int]bool{}
+				for _, x := range h.s2 {
+					m[int(x)] = true
+				}
+				want := refspec.Desired(h.r2, m)
+				if !eqInts(got, want) {
+					add(c01Blocks, "controller-pods-differ-from-spec-after-edit", fmt.Sprintf("replicas %d->%d slots %v->%v policy=%s: the set converged to pods at %v, spec is %v", h.r1, h.r2, h.s1, h.s2, pol, got, want), nil)
+				}
+				res.sig(fmt.Sprintf("hist/%v/%s", h, pol))
+			}
+		}
+	}
 	for k, n := range reported {
 		res.Stats["violations_"+k] = n
 	}
 	return res
+}
+
+// c01History: converge under (r1,S1), edit to (r2,S2), converge again; returns the ordinals of the pods present.
+func c01History(w *world.World, r1 int, s1 []int32, r2 int, s2 []int32, pol asv1.PodManagementPolicyType) ([]int, string) {
+	w.Reset()
+	p := int32(0)
+	w.Srv.Seed(simapi.Sets, world.NewSet(world.SetOpts{Name: "web", Replicas: int32(r1), Slots: s1, Policy: pol, Partition: &p, HistLimit: 10}))
+	run := world.NewRunner(w, 1, world.DefaultCfg())
+	run.Sets = []string{"web"}
+	if cr := run.Calm(1); !cr.Converged {
+		return nil, fmt.Sprintf("history case: start state (%d,%v) not reached: %v", r1, s1, cr.NotConv)
+	}
+	w.EditSet("web", func(s *asv1.StatefulSet) {
+		world.SetSlots(s, s2)
+		s.Spec.Replicas = world.I32(int32(r2))
+	})
+	for i := 0; i < 40; i++ {
+		run.CalmRound()
+	}
+	have := map[int]bool{}
+	for _, n := range w.PodNames() {
+		if _, ord, ok := refspec.ParsePodName(n); ok {
+			have[ord] = true
+		}
+	}
+	return refspec.SortedInts(have), ""
 }
 
 // c01Controller runs the real controller on an empty cluster and returns the ordinals it created pods at.
@@ -320,10 +394,10 @@ func c01Controller(w *world.World, r int, slots []int32, pol asv1.PodManagementP
 
 func init() {
 	register(&Check{Prop: "C01", Level: "exploration", Exhaustive: true,
-		Rule: "exhaustive: every replicas r in 0..8 (9 thorough) x every subset of {-3..-1} U [0,12) (14 thorough) as slot set and as annotation text, plus absent/malformed/duplicate/extreme annotation texts, each against the independent spec 'first r naturals not in S' for all five helpers; controller half: every r<=5 x subset of [-1,7) x {Parallel, OrderedReady} on an empty cluster, create calls compared with the spec; non-trivial = r>0 and at least one slot; distinct = distinct (r, S[, policy])",
+		Rule: "exhaustive: every replicas r in 0..8 (9 thorough) x every subset of {-3..-1} U [0,12) (14 thorough) as slot set and as annotation text, plus absent/malformed/duplicate/extreme annotation texts, each against the independent spec 'first r naturals not in S' for all five helpers; controller half: every r<=5 x subset of [-1,7) x {Parallel, OrderedReady} on an empty cluster, create calls compared with the spec, plus 588 edit histories (r1,S1)->(r2,S2) incl. cleared annotations run to convergence and compared with the spec of the current values; non-trivial = r>0 and at least one slot; distinct = distinct (r, S[, policy])",
 		Assume: []string{"replicas is kept small: the code allocates a slice of the effective range, so r near MaxInt32 is an out-of-memory question, not an ordinal question",
 			"for texts whose meaning is a Go JSON decoder quirk ([null], [1.0]) only agreement downstream of GetDeleteSlots is checked"},
 		Cases:  func(t string) int { return c01Blocks + 32 },
 		Run:    runC01,
-		Floors: []string{"helper_cases_with_negative_slot", "annotation_text_cases", "controller_cases"}})
+		Floors: []string{"helper_cases_with_negative_slot", "annotation_text_cases", "controller_cases", "controller_history_cases"}})
 }
